@@ -114,27 +114,37 @@ Qed.
 (* no table whose name differs from n in case only (for sqlite that IS table n) *)
 Definition case_clash_free (db : dbstate) (n : str) : bool := Bool.eqb (eng_has db n) (table_exists db n).
 
-(* after createTable(ifNotExists=True), however it ended, the table is there ... *)
-Lemma create_op_exists : forall dc db, case_clash_free db (table_of dc) = true ->
-  table_exists (fst (create_table_op dc true db)) (table_of dc) = true.
+(* after createTable(ifNotExists=True, createJoinTables=cj, createIndexes=ci), however it ended,
+   the table is there ... *)
+Lemma create_full_exists : forall dc cj ci db, case_clash_free db (table_of dc) = true ->
+  table_exists (fst (create_table_full dc true cj ci db)) (table_of dc) = true.
 Proof.
-  intros dc db Hc. apply eqb_prop in Hc. unfold create_table_op. cbn [andb].
+  intros dc cj ci db Hc. apply eqb_prop in Hc. unfold create_table_full. cbn [andb].
   destruct (table_exists db (table_of dc)) eqn:E; [exact E|].
   assert (G : grows (fst (eng_create db (table_of dc) (class_cols dc)))
                     (fst (ebind (eng_create db (table_of dc) (class_cols dc))
-                            (fun db1 => ebind (create_join_tables dc true db1) (fun db2 => create_indexes dc db2))))).
+                            (fun db1 => ebind (if cj then create_join_tables dc true db1 else (db1, false))
+                                          (fun db2 => if ci then create_indexes dc db2 else (db2, false)))))).
   { apply ebind_fst_rel; [apply grows_trans|apply grows_refl|]. intro db1.
-    apply ebind_fst_rel; [apply grows_trans|apply create_join_tables_grows|apply create_indexes_grows]. }
+    apply ebind_fst_rel; [apply grows_trans| |].
+    - destruct cj; [apply create_join_tables_grows|apply grows_refl].
+    - intro db2. destruct ci; [apply create_indexes_grows|apply grows_refl]. }
   apply G. apply eng_create_makes. congruence.
 Qed.
 
-(* ... so a second call changes nothing and does not fail -- whatever other tables the
-   database holds (tableExists compares the name exactly) *)
+(* ... so a second call -- with whatever createJoinTables / createIndexes flags -- changes nothing and
+   does not fail, whatever other tables the database holds (tableExists compares the name exactly) *)
+Theorem create_full_idem : forall dc cj ci cj' ci' db, case_clash_free db (table_of dc) = true ->
+  create_table_full dc true cj' ci' (fst (create_table_full dc true cj ci db))
+  = (fst (create_table_full dc true cj ci db), false).
+Proof.
+  intros dc cj ci cj' ci' db Hc. unfold create_table_full at 1. cbn [andb].
+  rewrite (create_full_exists dc cj ci db Hc). reflexivity.
+Qed.
+
 Theorem create_idem : forall dc db, case_clash_free db (table_of dc) = true ->
   create_table_op dc true (fst (create_table_op dc true db)) = (fst (create_table_op dc true db), false).
-Proof.
-  intros dc db Hc. unfold create_table_op at 1. cbn [andb]. rewrite (create_op_exists dc db Hc). reflexivity.
-Qed.
+Proof. intros dc db Hc. exact (create_full_idem dc true true true true db Hc). Qed.
 
 (* without that hypothesis the second call still leaves the state alone (it may fail again) *)
 Theorem create_idem_state : forall dc db,
@@ -148,26 +158,32 @@ Proof.
     - split; [reflexivity|]. destruct (eng_has db (table_of dc)); congruence. }
   destruct E as [T H].
   assert (R : create_table_op dc true db = (db, true)).
-  { unfold create_table_op. cbn [andb]. rewrite T. unfold eng_create. rewrite H. reflexivity. }
+  { unfold create_table_op, create_table_full. cbn [andb]. rewrite T. unfold eng_create. rewrite H. reflexivity. }
   rewrite R. cbn [fst]. rewrite R. reflexivity.
 Qed.
 
-Lemma drop_op_gone : forall dc db,
-  table_exists (fst (drop_table_op dc true db)) (table_of dc) = false.
+Lemma drop_full_gone : forall dc dj db,
+  table_exists (fst (drop_table_full dc true dj db)) (table_of dc) = false.
 Proof.
-  intros dc db. unfold drop_table_op. cbn [andb].
+  intros dc dj db. unfold drop_table_full. cbn [andb].
   destruct (table_exists db (table_of dc)) eqn:E; cbn [negb]; [|exact E].
   assert (G : shrinks (fst (eng_drop db (table_of dc)))
-                      (fst (ebind (eng_drop db (table_of dc)) (drop_join_tables dc true)))).
-  { apply ebind_fst_rel; [apply shrinks_trans|apply shrinks_refl|]. intro db1. apply drop_join_tables_shrinks. }
+                      (fst (ebind (eng_drop db (table_of dc))
+                              (fun db1 => if dj then drop_join_tables dc true db1 else (db1, false))))).
+  { apply ebind_fst_rel; [apply shrinks_trans|apply shrinks_refl|]. intro db1.
+    destruct dj; [apply drop_join_tables_shrinks|apply shrinks_refl]. }
   apply G. apply eng_drop_removes. exact E.
+Qed.
+
+Theorem drop_full_idem : forall dc dj dj' db,
+  drop_table_full dc true dj' (fst (drop_table_full dc true dj db)) = (fst (drop_table_full dc true dj db), false).
+Proof.
+  intros dc dj dj' db. unfold drop_table_full at 1. cbn [andb]. rewrite drop_full_gone. reflexivity.
 Qed.
 
 Theorem drop_idem : forall dc db,
   drop_table_op dc true (fst (drop_table_op dc true db)) = (fst (drop_table_op dc true db), false).
-Proof.
-  intros dc db. unfold drop_table_op at 1. cbn [andb]. rewrite drop_op_gone. reflexivity.
-Qed.
+Proof. intros dc db. exact (drop_full_idem dc true true db). Qed.
 
 (* ------------------------------------------------------------------ evolution *)
 Definition cell (cols : list str) (row : list Z) (x : str) : Z :=
